@@ -323,6 +323,15 @@ func (r *run) check(end, msg string) error {
 	if w.RunErr != nil {
 		return fmt.Errorf("RUNERR: provider returned %v", w.RunErr)
 	}
+	byName := map[string]string{}
+	for i, d := range w.Defs {
+		name := strings.SplitN(d, " ", 2)[0]
+		if first, ok := byName[name]; !ok {
+			byName[name] = d
+		} else if first != d {
+			return fmt.Errorf("ISOLATION: the definition of scenario %s handed to shot %d differs from the one first handed out: a shot altered the shared definition\n first: %s\n now:   %s", name, i+1, first, d)
+		}
+	}
 	switch c.Mode {
 	case "exec":
 		return r.checkExec()
